@@ -3,7 +3,8 @@
 The numba_scfg modules are imported FROM /repo's SOURCE through an import hook
 that rewrites only iteration sites: `for .. in E`, comprehension generators,
 iter/list/tuple/enumerate/deque/next/dict.fromkeys(E), .extend/.update(E),
-E.pop().  E is passed through a helper that, when E is a set/frozenset with
+E.pop(), unpacking, zip/map/filter/reduce(.., E), sorted/min/max(E, key=..)
+(equal keys keep iteration order).  E is passed through a helper that, when E is a set/frozenset with
 >= 2 members not all integers, returns its members in the order the current
 schedule prescribes for this dynamic event; otherwise E is returned untouched.
 """
@@ -110,6 +111,15 @@ class _T(ast.NodeTransformer):
                     n.args[i] = self._w(n.args[i])
                 if n.func.id not in ("zip", "map", "chain"):
                     break
+        fname = n.func.id if isinstance(n.func, ast.Name) else (n.func.attr if isinstance(n.func, ast.Attribute) else None)
+        # sorted / min / max WITH a key function: members with equal keys keep the order of the iteration
+        if fname in ("sorted", "min", "max", "nsmallest", "nlargest") and n.args and any(k.arg == "key" for k in n.keywords):
+            i = 1 if fname in ("nsmallest", "nlargest") and len(n.args) > 1 else 0
+            if not wrapped(n.args[i]) and not isinstance(n.args[i], ast.Starred):
+                n.args[i] = self._w(n.args[i])
+        # reduce(f, E): folds in iteration order
+        if fname == "reduce" and len(n.args) >= 2 and not wrapped(n.args[1]):
+            n.args[1] = self._w(n.args[1])
         if isinstance(n.func, ast.Attribute) and n.func.attr in self.ITER_METHODS and n.args and not wrapped(n.args[0]):
             n.args[0] = self._w(n.args[0])
         if isinstance(n.func, ast.Attribute) and n.func.attr == "pop":
